@@ -6,8 +6,8 @@ import random
 import re
 
 BOUND = {
-    "quick": "all calendar/event fixture files that parse (about 85) plus 6 synthetic texts x 7 rewrites (LF, BOM, str, re-fold with "
-             "space, re-fold with tab, trailing blank lines, name-case variants: lower / upper / swapped) + 3 random compositions each, "
+    "quick": "all calendar/event fixture files that parse (about 85) plus 7 synthetic texts x 7 rewrites (LF, BOM, str, re-fold with "
+             "space, re-fold with tab, trailing blank lines, name-case variants: lower / upper / swapped / a spelling of its own on every line) + 3 random compositions each, "
              "both providers; compared: tree, re-serialisation, utcoffset of parsed date-times",
     "thorough": "same with 12 random compositions each and both providers",
 }
@@ -27,6 +27,10 @@ SYNTH = [
     "ATTENDEE;RSVP=true;ROLE=req-participant;PARTSTAT=accepted;CUTYPE=individual;X-Custom=MixedCase:mailto:a@example.com\r\n"
     "ATTACH;ENCODING=base64;VALUE=binary;FMTTYPE=text/plain:dGV4dA==\r\nBEGIN:VALARM\r\nTRIGGER;RELATED=end:-PT15M\r\nACTION:display\r\nEND:VALARM\r\n"
     "END:VEVENT\r\nBEGIN:VFREEBUSY\r\nUID:6\r\nFREEBUSY;FBTYPE=busy-tentative:20240101T100000Z/PT1H\r\nEND:VFREEBUSY\r\nEND:VCALENDAR\r\n",
+    # repeated properties: their values keep the order of the lines whatever the spelling of the name on each line
+    "BEGIN:VCALENDAR\r\nVERSION:2.0\r\nBEGIN:VEVENT\r\nUID:7\r\nATTENDEE:mailto:a1@example.com\r\nCOMMENT:c1\r\nATTENDEE:mailto:a2@example.com\r\n"
+    "ATTENDEE:mailto:a3@example.com\r\nCOMMENT:c2\r\nATTENDEE:mailto:a4@example.com\r\nCOMMENT:c3\r\nX-MULTI:1\r\nX-MULTI:2\r\nX-MULTI:3\r\n"
+    "EXDATE:20240101T100000Z\r\nEXDATE:20240102T100000Z\r\nEXDATE:20240103T100000Z\r\nEND:VEVENT\r\nEND:VCALENDAR\r\n",
     "BEGIN:VCALENDAR\r\nBEGIN:X-BOX\r\nX-PROP;X-PARAM=1:value\r\nBEGIN:VTODO\r\nDUE;TZID=America/New_York:20240301T090000\r\nEXDATE;TZID=America/New_York:20240302T090000\r\nRECURRENCE-ID;TZID=America/New_York:20240302T090000\r\nEND:VTODO\r\nEND:X-BOX\r\nEND:VCALENDAR\r\n",
 ]
 
@@ -107,7 +111,11 @@ def rewrites(rnd):
                     out.append(line)
                     continue
                 name, rest = m.group(1), m.group(2)
-                conv = {"lower": str.lower, "upper": str.upper, "swap": str.swapcase}[mode]
+                if mode == "perline":
+                    # "any upper/lower-casing": every line gets its own spelling (repeated properties then differ in case from line to line)
+                    conv = rnd.choice([str.lower, str.upper, str.title, str.swapcase])
+                else:
+                    conv = {"lower": str.lower, "upper": str.upper, "swap": str.swapcase}[mode]
                 if name.upper() in ("BEGIN", "END"):
                     # BEGIN:VEVENT -> begin:vevent
                     if rest.startswith(":"):
@@ -124,7 +132,7 @@ def rewrites(rnd):
             return "\r\n".join(out)
         return f
     return {"LF": lf, "refold-space": refold(" "), "refold-tab": refold("\t"), "blank-lines": blank, "lower": case("lower"), "upper": case("upper"),
-            "swapcase": case("swap")}
+            "swapcase": case("swap"), "case-per-line": case("perline")}
 
 
 SKIP = "skip"
@@ -147,7 +155,7 @@ def check_one(name, data, rw_names, rnd):
     rws = rewrites(rnd)
     t2 = text
     # the rewrites are defined on CRLF-joined unfolded text: apply them in a fixed order (case, folds, blank lines, LF last)
-    order = ["lower", "upper", "swapcase", "refold-space", "refold-tab", "blank-lines", "LF"]
+    order = ["lower", "upper", "swapcase", "case-per-line", "refold-space", "refold-tab", "blank-lines", "LF"]
     for r in sorted((r for r in rw_names if r in order), key=order.index):
         t2 = rws[r](t2)
     payload = t2 if "str" in rw_names else (("﻿" if "BOM" in rw_names else "") + t2).encode("utf-8")
@@ -167,7 +175,7 @@ def run(b, tier, seed, findings, known_seen):
     rnd = random.Random(seed)
     fails = {}
     n = 0
-    singles = ["LF", "BOM", "str", "refold-space", "refold-tab", "blank-lines", "lower", "upper", "swapcase"]
+    singles = ["LF", "BOM", "str", "refold-space", "refold-tab", "blank-lines", "lower", "upper", "swapcase", "case-per-line", "case-per-line"]
     ncomp = 3 if tier == "quick" else 12
     for prov in ("zoneinfo", "pytz"):
         icalendar.timezone.tzp.use(prov)
